@@ -64,7 +64,9 @@ FAIL_CLASSES = ['missing-query', 'corrupt-query', 'non-hdf5-query',
                 'marker-unknown-to-reference', 'no-usable-root',
                 'negative-raw', 'wrong-normalization', 'corrupt-stats',
                 'worker-before', 'worker-mid', 'worker-after',
-                'worker-before-slow-siblings', 'worker-mid-slow-siblings']
+                'worker-before-slow-siblings', 'worker-mid-slow-siblings',
+                'negative-raw/no-scratch', 'marker-unknown-to-reference'
+                '/no-scratch', 'worker-mid/no-scratch']
 
 
 def gen_cases(tier, seed):
@@ -262,6 +264,28 @@ def run_chain(spec, work, ctx):
                   watch, empties)
     if e:
         return f'mapping raised {e[-300:]}'
+    # mapping without a scratch directory (the schema default): temporary
+    # files go to the default temporary directory and must be gone after
+    mdir2 = outd / 'map_noscratch'
+    mdir2.mkdir()
+    cfg2 = pw.mapping_config(mdir2, q, stats, lookup, chunk_size=4,
+                             n_processors=3)
+    cfg2['tmp_dir'] = None
+    cfg2['extended_result_dir'] = str(mdir2 / 'out')
+    shutil.rmtree(mdir2 / 'scratch')
+
+    def do_map2():
+        with pw.quiet():
+            run_mapping(config=cfg2,
+                        output_path=cfg2['extended_result_path'],
+                        log_path=cfg2['log_path'],
+                        hdf5_output_path=cfg2['hdf5_result_path'])
+    declared = [cfg2[k] for k in ('extended_result_path', 'csv_result_path',
+                                  'hdf5_result_path', 'log_path')]
+    e = monitored(ctx, 'mapping-no-scratch-dir', do_map2,
+                  [q, stats, lookup], declared, watch, empties)
+    if e:
+        return f'mapping without scratch raised {e[-300:]}'
     return None
 
 
@@ -270,6 +294,8 @@ def run_chain(spec, work, ctx):
 def run_fail(spec, work, ctx):
     rng = np.random.default_rng(spec['seed'])
     fc = spec['fail_class']
+    no_scratch = fc.endswith('/no-scratch')
+    fc = fc.split('/')[0]
     env = c14.Env(work / 'env', spec['seed'])
     scratch = work / 'scratch'
     outd = work / 'out'
@@ -333,6 +359,9 @@ def run_fail(spec, work, ctx):
     cfg = pw.mapping_config(outd, q, stats, lookup, chunk_size=3,
                             n_processors=4, **ta)
     cfg['tmp_dir'] = str(scratch)
+    if no_scratch:
+        cfg['tmp_dir'] = None
+        cfg['extended_result_dir'] = str(outd / 'out')
     in_files = [p for p in (q, stats, lookup) if pathlib.Path(p).exists()]
     in_dig = {str(p): fsmon.file_digest(p) for p in in_files}
     from cell_type_mapper.cli.from_specified_markers import run_mapping
@@ -358,7 +387,16 @@ def run_fail(spec, work, ctx):
     import gc
     gc.collect()
     ctx.bump('failing_mapping_runs_checked')
-    ctx.bump('fail_' + fc)
+    ctx.bump('fail_' + spec['fail_class'])
+    if no_scratch:
+        declared = {pathlib.Path(cfg[k]).name for k in
+                    ('extended_result_path', 'csv_result_path',
+                     'hdf5_result_path', 'log_path')}
+        extra = [p for p in listing(outd / 'out') if p not in declared]
+        if extra:
+            ctx.V('C19:failed-mapping-leaves-files[no-scratch,output-dir]',
+                  f'after a mapping run failing on {fc} without a scratch '
+                  f'directory the output directory holds {extra[:6]}')
     for d, nm in ((scratch, 'scratch'), (tmpd, 'TMPDIR'), (cwd, 'cwd')):
         left = listing(d)
         if left:
